@@ -81,6 +81,8 @@ def scenario_source(kind, name):
 
         cfg, meta = scenario_source(*name["base"])
         cfg = mutate_settings(cfg, _random.Random(name["settings_seed"]), Cov(), None, p_nodes=name.get("p_nodes", 0.6))
+        if name.get("defender_first"):  # the same agents, the RL agent declared first (before the agents whose rewards it shares)
+            cfg["agents"] = sorted(cfg["agents"], key=lambda a: a.get("type") != "proxy-agent")
         meta = dict(meta, name=f"{meta['name']}~settings{name['settings_seed']}")
         return cfg, meta
     raise ValueError(kind)
@@ -232,6 +234,13 @@ class Policy:
             if tog and r < 0.85:
                 return self.rnd.choice(tog)
             return self.rnd.randrange(n) if self.rnd.random() < 0.3 else 0
+        if k == "churn":  # keep installing / removing applications (the request tree changes shape under the agents)
+            amap = env.agent.action_manager.action_map
+            ch = [i for i, (a, o) in amap.items() if a in ("node-application-install", "node-application-remove")]
+            r = self.rnd.random()
+            if ch and r < 0.6:
+                return self.rnd.choice(ch)
+            return self.rnd.randrange(n) if r < 0.85 else 0
         if k == "quiet":
             return 0 if self.rnd.random() < 0.7 else self.rnd.randrange(n)
         return self.rnd.randrange(n)
